@@ -11,6 +11,12 @@ CLSDOM = ["every NaN bit pattern (both signs, all payloads)", "every float below
           "every finite float >= 2^53", "+infinity"]
 
 
+def RECUN(l):
+    # TryFrom<f64> re-enters itself twice per activation (negative -> abs, too large -> rem): CBMC unrolls the recursion to
+    # the harness-wide bound, i.e. 2^bound copies of the body (bound 6 exhausted 14 GB); the real depth is 3
+    return max(l + 1, 3)
+
+
 def harnesses():
     out = []
     for b in [0, 1, 8, 52, 53, 54, 64, 65, 128, 256]:
@@ -22,7 +28,7 @@ def harnesses():
             if c in (3, 4, 5):
                 # which outcomes exist in the class at this width
                 lo = {3: 1, 4: 53, 5: 54}[c]      # smallest bit length of a value in the class
-                hi = {3: 53, 4: 54, 5: 2000}[c]   # largest
+                hi = {3: 53, 4: 53, 5: 2000}[c]   # largest (class 3 rounds up to 2^52)
                 if b >= lo and c != 3:
                     cov.append("fits")
                 if c == 3 and b >= 1:
@@ -30,16 +36,16 @@ def harnesses():
                 if b < hi:
                     cov.append("too-large")
             out.append(H("c18_try_from_f64_%d_%s" % (b, cn), "C18", "c18::try_from_f64::<%d,%d,%d>" % (b, l, c),
-                         unwind=max(l + 2, 6), tier="quick" if quick else "thorough", timeout=1800, inst=inst,
+                         unwind=RECUN(l), tier="quick" if quick else "thorough", timeout=1800, inst=inst,
                          stubs=[FMT] + EXP2, role="c18::try_from_f64." + cn, domain=CLSDOM[c] + "; exp2 on integer arguments "
                          "replaced by the exact power of two", free_bits=64, fns=["TryFrom<f64>"], covers_required=cov))
             out.append(H("c18_saturating_from_f64_%d_%s" % (b, cn), "C18", "c18::saturating_from_f64::<%d,%d,%d>" % (b, l, c),
-                         unwind=max(l + 2, 6), tier="quick" if b in (8, 64) else "thorough", timeout=1800, inst=inst,
+                         unwind=RECUN(l), tier="quick" if b in (8, 64) else "thorough", timeout=1800, inst=inst,
                          stubs=[FMT] + EXP2, role="c18::saturating_from_f64." + cn, domain=CLSDOM[c], free_bits=64,
                          fns=["saturating_from::<f64>", "TryFrom<f64>"]))
     for b in [0, 1, 8, 24, 25, 64, 65, 128, 129]:
         l = nlimbs(b)
-        out.append(H("c18_from_f32_%d" % b, "C18", "c18::from_f32::<%d,%d>" % (b, l), unwind=max(l + 2, 6),
+        out.append(H("c18_from_f32_%d" % b, "C18", "c18::from_f32::<%d,%d>" % (b, l), unwind=RECUN(l),
                      tier="quick" if b in (8, 64, 128) else "thorough", timeout=1800, inst="Uint<%d,%d> <- f32" % (b, l),
                      stubs=[FMT] + EXP2, domain="every f32 bit pattern", free_bits=32, fns=["TryFrom<f32>", "TryFrom<f64>"]))
     for b in [0, 1, 8, 53, 54, 64, 65, 128, 129, 192, 256]:
